@@ -5,6 +5,7 @@ import (
 	"errors"
 	"fmt"
 	"strings"
+	"sync"
 	"time"
 
 	"verifsim/core"
@@ -34,6 +35,7 @@ type hscript struct {
 func runC14(s *core.Sim, tier string) RunInfo {
 	w := newSW(s, false)
 	w.Disk.Park = s.Tape.Coin("park", 1, 3)
+	w.lowerParallelThreshold()
 	m := w.M
 	var hist []string
 	evals := 0
@@ -59,7 +61,10 @@ func runC14(s *core.Sim, tier string) RunInfo {
 		}
 		return 0, false
 	}
+	var delMu sync.Mutex // parallel deletion workers commit concurrently
 	w.Disk.Observe = func(e simdisk.Entry, idx int) {
+		delMu.Lock()
+		defer delMu.Unlock()
 		for _, op := range e.Ops {
 			if !op.Del {
 				continue
@@ -74,12 +79,15 @@ func runC14(s *core.Sim, tier string) RunInfo {
 	nh := 1 + s.Tape.Draw("handlers", 3)
 	scripts := make([]*hscript, nh)
 	var calls []hcall
+	var callsMu sync.Mutex
 	register := func() {
 		for i := 0; i < nh; i++ {
 			i := i
 			w.St.OnDelete(func(ctx context.Context, height uint64) error {
 				sc := scripts[i]
+				callsMu.Lock()
 				sc.n++
+				callsMu.Unlock()
 				c := hcall{handler: i, height: height, diskIdx: w.Disk.LogLen()}
 				if g, err := w.St.GetByHeight(ctx, height); err == nil && w.Ch.Is(g) && g.Height() == height {
 					c.readable = true
@@ -87,7 +95,7 @@ func runC14(s *core.Sim, tier string) RunInfo {
 						c.byHash = true
 					}
 				}
-				defer func() { calls = append(calls, c) }()
+				defer func() { callsMu.Lock(); calls = append(calls, c); callsMu.Unlock() }()
 				switch {
 				case sc.kind == "slow":
 					time.Sleep(time.Second)
@@ -186,7 +194,8 @@ func runC14(s *core.Sim, tier string) RunInfo {
 			if !c.readable || !c.byHash {
 				s.Violate("handler-header-unreadable", at, "handler %d called for %d but the header was not readable (byHeight=%v byHash=%v) [%s]", c.handler, c.height, c.readable, c.byHash, w.cfg())
 			}
-			if c.result != "ok" && !failed {
+			if c.result != "ok" && (!failed || c.height < failedAt) {
+				// (with parallel workers several heights can fail in one call: the lowest one counts)
 				failed, failedAt = true, c.height
 			}
 		}
@@ -227,7 +236,10 @@ func runC14(s *core.Sim, tier string) RunInfo {
 			s.Probe("handler-failure-" + side)
 			if side == "tail" {
 				// headers above the failing one untouched
-				for h := failedAt; h < to; h++ {
+				parallel := w.ParThreshold < 10000 && to-from >= w.ParThreshold
+				for h := failedAt; h < to && !parallel; h++ {
+					// (sequential deletion stops at the failure; parallel workers by design
+					// keep removing other heights of the range)
 					if gone[h] {
 						s.Violate("above-failure-removed", at, "tail-side DeleteRange(%d,%d) failed at %d but %d is gone", from, to, failedAt, h)
 					}
